@@ -380,6 +380,59 @@ func c09c(c *Ctx, r *Report) {
 		r.Undecided(clause, "R2 SKELETON", f.Name, c.pos(f.Decl.Pos()), "item loop / successor registration loop not found (rule is pinned to the worklist implementation)")
 		return
 	}
+	// the marker "successor not registered yet": the value a new goto entry's ItemCl is created with must be the value
+	// the item loop tests for, and it must not be a possible state index — otherwise a second item with the same
+	// symbol is added to the state with that index instead of the pending successor
+	{
+		cf := newCoverFn(f)
+		var created, tested []int64
+		unknown := ""
+		ast.Inspect(itemLoop.Body, func(n ast.Node) bool {
+			switch x := n.(type) {
+			case *ast.KeyValueExpr:
+				if id, ok := x.Key.(*ast.Ident); ok && id.Name == "ItemCl" {
+					if v, isC := constInt(info, cf.resolve(x.Value)); isC {
+						created = append(created, v)
+					} else {
+						unknown = "a new goto entry's ItemCl is created with the non-constant " + exprString(x.Value)
+					}
+				}
+			case *ast.BinaryExpr:
+				if x.Op == token.NEQ || x.Op == token.EQL {
+					for _, pr := range [][2]ast.Expr{{x.X, x.Y}, {x.Y, x.X}} {
+						if fieldNamed(info, pr[0], "ItemCl") {
+							if v, isC := constInt(info, pr[1]); isC {
+								tested = append(tested, v)
+							}
+						}
+					}
+				}
+			}
+			return true
+		})
+		why := unknown
+		switch {
+		case why != "":
+		case len(created) == 0:
+			why = "no goto entry is created with a marker in the item loop"
+		case len(tested) == 0:
+			// nothing tests the marker: the pending successor is always taken from ICref — fine
+		default:
+			for _, cv := range created {
+				if cv >= 0 {
+					why = fmt.Sprintf("pending successors are marked with ItemCl = %d, which is a possible state index", cv)
+				}
+				for _, tv := range tested {
+					if tv != cv {
+						why = fmt.Sprintf("pending successors are created with ItemCl = %d but recognised by comparing with %d", cv, tv)
+					}
+				}
+			}
+		}
+		r.Check(why == "", clause, "R2 SKELETON", f.Name+"/pending-successor-marker", c.pos(itemLoop.Pos()),
+			fmt.Sprintf("a goto entry whose successor is not registered yet carries ItemCl = %v, the value the item loop tests for, and no state has that index", created),
+			why)
+	}
 	pe := newPathEnum(info)
 	pe.rename[ps[0]] = "IC"
 	if v := identObj(info, itemLoop.Value); v != nil {
